@@ -693,6 +693,15 @@ impl Filter<FilterInvalid> {
         }
     }
 
+    pub fn into_ignore_hidden(self) -> Self {
+        // Destructure the former filter, and surround it with an ignore_hidden.
+        Filter {
+            state: FilterInvalid {
+                inner: FilterComp::new_ignore_hidden(self.state.inner),
+            },
+        }
+    }
+
     pub fn join_parts_and(a: Self, b: Self) -> Self {
         // I regret this function so much, but then again ...
         Filter {
